@@ -4,7 +4,7 @@ use crate::driver::{fail, Ctx, PResult, Property, Tier};
 use crate::exact::*;
 use crate::gen::func::*;
 use crate::gen::inst::*;
-use crate::model::{EQ_ZERO, KIND_CONTINUOUS, LE_ZERO};
+use crate::model::{EQ_ZERO, KIND_BINARY, KIND_CONTINUOUS, LE_ZERO};
 use crate::props::c05::{describe_inst, fp_instance};
 use crate::tape::Tape;
 use ommx::v1;
@@ -26,7 +26,7 @@ impl Property for C09 {
          oracle = f + sum_c w_c g_c^2 (resp. f + w sum g_c^2) as an exact polynomial in the joint variables (x, w) + bookkeeping model; non-trivial = >=2 active constraints of degree>=1 or >=1 pre-existing removed constraint; distinct = sha256(instance, method, weights)"
     }
     fn required_labels(&self) -> Vec<String> {
-        ["method=per-constraint", "method=uniform", "pre-removed", "absent-function", "noncontiguous-ids", "instantiated", "hints", "dependency", "regime=general", "regime=dyadic", "removed-reason-of-sdk-transformation", "constraint-id=u64::MAX", "two-constraints-with-identical-function", "active-constraints=16", "active-constraints=32", "active-constraints=65", "active-constraints=100"].iter().map(|s| s.to_string()).collect()
+        ["history=one-hot-member-fixed-then-penalty", "method=per-constraint", "method=uniform", "pre-removed", "absent-function", "noncontiguous-ids", "instantiated", "hints", "dependency", "regime=general", "regime=dyadic", "removed-reason-of-sdk-transformation", "constraint-id=u64::MAX", "two-constraints-with-identical-function", "active-constraints=16", "active-constraints=32", "active-constraints=65", "active-constraints=100"].iter().map(|s| s.to_string()).collect()
     }
     fn cases(&self, tier: Tier) -> usize {
         match tier {
@@ -49,6 +49,7 @@ impl Property for C09 {
         let wseed: Vec<f64> = (0..6).map(|_| if t.p(32) { 0.0 } else { gen_coeff(t, Regime::Dyadic, false) }).collect();
         let dup = if t.p(40) { Some(t.byte() as u64) } else { None };
         let many = if t.p(16) { Some((*t.pick(&[15usize, 16, 17, 32, 33, 65, 100]), t.byte() as u64)) } else { None };
+        let one_hot_history = t.p(24);
         let mut cfg = InstCfg::new(regime);
         cfg.hints = true;
         cfg.func.max_degree = 2;
@@ -93,6 +94,35 @@ impl Property for C09 {
                 inst.constraints.push(c);
             }
             ctx.label(format!("active-constraints={}", inst.constraints.len()));
+        }
+        // a genuine one-hot constraint with its hint, one member of which has since been fixed to 0 by partial_evaluate
+        // (the hint is history; the penalty is built from the constraint's function as it is now)
+        if one_hot_history && !inst.constraints.is_empty() && inst.decision_variables.iter().all(|v| v.id < 7100 || v.id > 7103) {
+            let s_ids: Vec<u64> = (7100..7104).collect();
+            for id in &s_ids {
+                let mut v = v1::DecisionVariable::default();
+                v.id = *id;
+                v.kind = KIND_BINARY;
+                v.bound = Some(crate::mk::bound(0.0, 1.0));
+                inst.decision_variables.push(v);
+            }
+            inst.constraints[0].function = Some(crate::mk::flin(crate::mk::linear(s_ids.iter().map(|i| (*i, 1.0)).collect(), -1.0)));
+            inst.constraints[0].equality = EQ_ZERO;
+            let mut h = inst.constraint_hints.take().unwrap_or_default();
+            h.one_hot_constraints.clear();
+            h.sos1_constraints.clear();
+            let mut oh = v1::OneHot::default();
+            oh.constraint_id = inst.constraints[0].id;
+            oh.decision_variables = s_ids.clone();
+            h.one_hot_constraints.push(oh);
+            inst.constraint_hints = Some(h);
+            let mut st = v1::State::default();
+            st.entries.insert(7101, 0.0);
+            if ommx::Evaluate::partial_evaluate(&mut inst, &st).is_err() {
+                ctx.exclude("partial_evaluate of the one-hot member failed");
+                return Ok(());
+            }
+            ctx.label("history=one-hot-member-fixed-then-penalty");
         }
         let inst = inst;
         if inst.decision_variables.iter().any(|v| v.id >= u64::MAX - 8) {
